@@ -167,6 +167,22 @@ def run_job(job):
             ev['after'] = rec_arr(x)
             ev['otherafter'] = rec_arr(other)
         events.append(ev)
+    # ---- (b2) itermv / shape: the multivectors inside an array-valued multivector ---------------------
+    for ci in range(max(2, n // 4)):
+        eid = f"{job['prefix']}:t{ci}"
+        shape = rng.choice([(3,), (2, 2), (4,), (2, 3), (3, 2), (2, 1, 2)])
+        cont = rng.choice(['ndarray', 'list'])
+        x = array_mv(rand_keys(3), shape, cont)
+        before = rec_arr(x, shape)
+        ev = {'id': eid, 'kind': 'itermv', 'container': cont, 'before': before, 'after': before, 'raised': '', 'shape': [], 'items': []}
+        try:
+            ev['shape'] = [int(v) for v in x.shape]
+            ev['items'] = [{'keys': [int(k) for k in m.keys()], 'vals': [int(v) for v in m.values()]} for m in x.itermv()]
+        except Exception as e:   # noqa: BLE001
+            ev['raised'] = type(e).__name__
+        ev['after'] = rec_arr(x, shape)
+        if len(x.keys()):
+            events.append(ev)
     # ---- (c) operand kinds on either side of infix and reflected operators ------------------------
     kinds = ['int', 'npint', 'npfloat', 'list', 'tuple', 'callable', 'callable2', 'float']
     for ci in range(n):
